@@ -142,6 +142,101 @@ class Explore(Job):
             sim.close_world()
 
 
+class RandomPrefixMixin:
+    """deepening: checkpoints that are not prefixes of a canonical run.  A checkpoint is the state reached by a pseudo-random
+    legal schedule (seeded, so reproducible); from it the same k free steps are explored exhaustively under the solver and the
+    same oracle applies.  The random part only *selects pre-states*; every verdict still comes from the exhaustive suffix."""
+    batch = ()          # seeds handled by this job
+    plen = 10
+
+    def gen_prefix(self, sim, seed):
+        import random
+        rnd = random.Random(seed)
+        n = rnd.randrange(3, self.plen + 1)
+        out = []
+        for _ in range(n):
+            acts = self.free_actions(sim)
+            if not acts:
+                break
+            # bias towards progress: deliveries and API calls twice as likely as faults
+            weights = [1 if a[0] in ("drop", "close", "lose", "stop") else 2 for a in acts]
+            a = rnd.choices(acts, weights)[0]
+            sim.do(a)
+            out.append(a)
+            if self.violations(sim, "step"):
+                break
+        return out
+
+    def scenario(self):
+        seeds = list(self.batch)
+        seed = seeds[eng().choose(len(seeds), "seed")]
+        sim = Sim(**sim_args(self.configs[self.cfg]))
+        sched = []
+        eng().inputs["rseed"] = seed
+        eng().inputs["sched"] = sched
+        try:
+            pre = self.gen_prefix(sim, seed)
+            if not self._oracle(sim, "prefix"):
+                return
+            for step in range(self.k):
+                acts = self.free_actions(sim)
+                if not acts:
+                    break
+                a = acts[eng().choose(len(acts), "act%d" % step)]
+                sched.append(list(a))
+                sim.do(a)
+                if not self._oracle(sim, "step"):
+                    return
+            sim.settle()
+            self._oracle(sim, "settled")
+            eng().note("nt:explored")
+        finally:
+            sim.close_world()
+
+    def replay(self, inp, label):
+        sim = Sim(**sim_args(self.configs[self.cfg]))
+        try:
+            pre = self.gen_prefix(sim, inp["rseed"])
+            fails = self.violations(sim, "prefix")
+            for a in inp["sched"]:
+                if fails:
+                    break
+                a = tuple(a)
+                if a not in sim.enabled():
+                    return None
+                sim.do(a)
+                fails = self.violations(sim, "step")
+            if not fails:
+                sim.settle()
+                fails = self.violations(sim, "settled")
+            if fails:
+                return "config %s, pseudo-random checkpoint (seed %d: %r) + %r: %s: %s" % (
+                    self.cfg, inp["rseed"], pre, [tuple(x) for x in inp["sched"]], fails[0][0], fails[0][1])
+            return None
+        finally:
+            sim.close_world()
+
+
+def make_random_jobs(cls, tier, per_cfg=96, batch=6, k=2, plen=12, base_seed=0):
+    """thorough tier only"""
+    if tier != "thorough":
+        return []
+    import os
+    base = int(os.environ.get("VERIF_SEED", "0") or 0) * 100003 + base_seed
+    rcls = type("Random" + cls.__name__, (RandomPrefixMixin, cls), {})
+    J = []
+    for cfg in cls.configs:
+        for b in range(0, per_cfg, batch):
+            j = rcls(cfg, 0, 1, k)
+            j.batch = tuple(base + b + i for i in range(batch))
+            j.plen = plen
+            j.name = "random_%s_s%d-%d_k%d" % (cfg, j.batch[0], j.batch[-1], k)
+            j.bounds = dict(j.bounds, checkpoints="pseudo-random legal schedules of 3..%d steps, seeds %d..%d" % (plen, j.batch[0], j.batch[-1]))
+            j.must_reach = ()
+            J.append(j)
+    return J
+
+
 def make_jobs(cls, tier, kq, kt, stepq=8, stept=4):
     thorough = tier == "thorough"
     k = kt if thorough else kq
